@@ -2,20 +2,19 @@
   Ark.Proofs.RelRefine2Reach — property C05 with relations, part 7: the invariant over histories
   and the headline at every reachable state.
 
-  * `step2_inv` — every step of the machine other than `Reset` keeps `HInv2` (`Reset`: see
-    `Ark.Proofs.RelRefine2Reset` — the joint invariant `TInv` of the relation fragment demands
-    `pool.stale = []`, which `Reset` falsifies as soon as an entity was ever created; everything
-    else of the invariant IS re-established);
-  * `run2_inv`, `reach2_inv` — `HInv2` after every `Reset`-free history with
-    `ops.length < 2^16` (the bound of `RelRefine.reach_hinv`: a `RemoveEntity` of a relation
-    target may create one table per relation archetype);
+  * `step2_inv` — every step of the machine keeps `HInv2`, `Reset` included
+    (`Ark.Proofs.RelRefine2Reset.step2_reset`: the joint invariant `TInv` of the relation fragment
+    only demands that the memory `Reset` keeps behind the pool slice holds invalidated handles);
+  * `run2_inv`, `reach2_inv` — `HInv2` after every history with `ops.length < 2^16` (the bound
+    of `RelRefine.reach_hinv`: a `RemoveEntity` of a relation target may create one table per
+    relation archetype), `Reset` anywhere in it;
   * `reach2_cached_agrees` — **the headline**: at every reachable state, for every registered
     filter object (fixed relations allowed) and all admissible per-call relations, the cached
     table list has the members of the uncached walk, and the cached and the uncached iteration
     visit the same entities.
   Kernel-only proofs, core Lean only.
 -/
-import Ark.Proofs.RelRefine2Shrink
+import Ark.Proofs.RelRefine2Reset
 
 set_option autoImplicit false
 
@@ -24,29 +23,29 @@ namespace RelRefine2
 
 open World Ark.Props.C01World QueryRel QueryExact RelRefine
 
+/-- is the operation `Reset`?  (no theorem of this development needs it any more) -/
 def Op2.isReset : Op2 → Bool
   | .reset => true
   | _ => false
 
-/-- **one step keeps the invariant** (every operation but `Reset`); at most
+/-- **one step keeps the invariant** (every operation, `Reset` included); at most
     `1 + (relation archetypes)` tables, one relation archetype and one index slot are created -/
 theorem step2_inv (run : ProbeRunner) {s : St} {fl : List Nat} (H : HInv2 s fl)
     (hfew : s.w.tables.length + s.w.relationArchetypes.length + 1 ≤ maxU32)
-    (hent : 2 * s.w.entities.length < 2 ^ 32) (op : Op2) (hnr : op.isReset = false) :
+    (hent : 2 * s.w.entities.length < 2 ^ 32) (op : Op2) :
     (∃ fl', HInv2 (step2 run s op) fl') ∧ Grows s (step2 run s op) := by
   cases op with
   | base op => exact step2_base run H hfew hent op
   | copy e => exact step2_copy run H hent e
   | shrink bounded => exact step2_shrink run H hent bounded
-  | reset => cases hnr
+  | reset => exact step2_reset run H
   | fdef f fo => exact step2_fdef run H f fo
   | freg f => exact step2_freg run H f
   | funreg f => exact step2_funreg run H f
   | query f extra => exact step2_query run H f extra
 
-/-- the invariant holds after every `Reset`-free history that stays within the size bounds -/
+/-- the invariant holds after every history that stays within the size bounds -/
 theorem run2_inv (run : ProbeRunner) (ops : List Op2) : ∀ (s : St) (fl : List Nat), HInv2 s fl →
-    (∀ op ∈ ops, op.isReset = false) →
     s.w.tables.length + ops.length * (s.w.relationArchetypes.length + ops.length) +
       s.w.relationArchetypes.length + ops.length + 1 ≤ maxU32 →
     2 * (s.w.entities.length + ops.length) < 2 ^ 32 →
@@ -57,10 +56,10 @@ theorem run2_inv (run : ProbeRunner) (ops : List Op2) : ∀ (s : St) (fl : List 
       (runOps2 run s ops).w.entities.length ≤ s.w.entities.length + ops.length := by
   induction ops with
   | nil =>
-    intro s fl h _ _ _
+    intro s fl h _ _
     exact ⟨fl, h, by simp [runOps2], by simp [runOps2], by simp [runOps2]⟩
   | cons op ops ih =>
-    intro s fl h hnr hb1 hb2
+    intro s fl h hb1 hb2
     simp only [List.length_cons] at hb1 hb2 ⊢
     have e1 : (ops.length + 1) * (s.w.relationArchetypes.length + (ops.length + 1)) =
         ops.length * (s.w.relationArchetypes.length + 1 + ops.length) +
@@ -71,25 +70,23 @@ theorem run2_inv (run : ProbeRunner) (ops : List Op2) : ∀ (s : St) (fl : List 
       rw [this]
     rw [e1] at hb1 ⊢
     obtain ⟨⟨fl1, h1⟩, g⟩ := step2_inv run h (by omega) (by omega) op
-      (hnr op List.mem_cons_self)
     obtain ⟨g1, g2, g3⟩ := g
     have hm : ops.length * ((step2 run s op).w.relationArchetypes.length + ops.length) ≤
         ops.length * (s.w.relationArchetypes.length + 1 + ops.length) :=
       Nat.mul_le_mul_left _ (by omega)
-    obtain ⟨fl2, h2, b1, b2, b3⟩ := ih _ fl1 h1 (fun o ho => hnr o (List.mem_cons_of_mem _ ho))
-      (by omega) (by omega)
+    obtain ⟨fl2, h2, b1, b2, b3⟩ := ih _ fl1 h1 (by omega) (by omega)
     refine ⟨fl2, h2, ?_, ?_, ?_⟩
     · show (runOps2 run (step2 run s op) ops).w.tables.length ≤ _; omega
     · show (runOps2 run (step2 run s op) ops).w.relationArchetypes.length ≤ _; omega
     · show (runOps2 run (step2 run s op) ops).w.entities.length ≤ _; omega
 
-/-- **the invariant holds at every state reachable without `Reset`** (same length bound as
-    `RelRefine.reach_hinv`) -/
+/-- **the invariant holds at every reachable state** — `Reset` anywhere in the history (same
+    length bound as `RelRefine.reach_hinv`) -/
 theorem reach2_inv (run : ProbeRunner) (cap rel : Nat) (ops : List Op2)
-    (hlen : ops.length < 2 ^ 16) (hnr : ∀ op ∈ ops, op.isReset = false) :
+    (hlen : ops.length < 2 ^ 16) :
     ∃ fl, HInv2 (reach2 run cap rel ops) fl := by
   have hsq : ops.length * ops.length ≤ 65535 * 65535 := Nat.mul_le_mul (by omega) (by omega)
-  obtain ⟨fl, h, _⟩ := run2_inv run ops _ [] (hinv2_init cap rel) hnr
+  obtain ⟨fl, h, _⟩ := run2_inv run ops _ [] (hinv2_init cap rel)
     (by
       show 1 + ops.length * (0 + ops.length) + 0 + ops.length + 1 ≤ maxU32
       rw [Nat.zero_add]; simp only [maxU32]; omega)
@@ -99,11 +96,11 @@ theorem reach2_inv (run : ProbeRunner) (cap rel : Nat) (ops : List Op2)
 /-- the size hypotheses of the step lemmas hold in every reachable state (one more operation
     fits) -/
 theorem reach2_fits (run : ProbeRunner) (cap rel : Nat) (ops : List Op2)
-    (hlen : ops.length + 1 < 2 ^ 16) (hnr : ∀ op ∈ ops, op.isReset = false) :
+    (hlen : ops.length + 1 < 2 ^ 16) :
     (reach2 run cap rel ops).w.tables.length + (reach2 run cap rel ops).w.relationArchetypes.length +
       1 ≤ maxU32 ∧ 2 * (reach2 run cap rel ops).w.entities.length < 2 ^ 32 := by
   have hsq : ops.length * ops.length ≤ 65535 * 65535 := Nat.mul_le_mul (by omega) (by omega)
-  obtain ⟨fl, _, b1, b2, b3⟩ := run2_inv run ops _ [] (hinv2_init cap rel) hnr
+  obtain ⟨fl, _, b1, b2, b3⟩ := run2_inv run ops _ [] (hinv2_init cap rel)
     (by
       show 1 + ops.length * (0 + ops.length) + 0 + ops.length + 1 ≤ maxU32
       rw [Nat.zero_add]; simp only [maxU32]; omega)
@@ -115,16 +112,16 @@ theorem reach2_fits (run : ProbeRunner) (cap rel : Nat) (ops : List Op2)
   simp only [maxU32]
   omega
 
-/-- **C05 with relations — the headline.**  After every `Reset`-free history of entity operations
+/-- **C05 with relations — the headline.**  After every history of entity operations
     WITH relation components (creation of tables, freeing and recycling of relation tables by
-    `RemoveEntity` of a target, `CopyEntity`, `Shrink`), filter definitions, registrations, unregistrations and
-    queries: for every filter object registered under an ID (fixed relations allowed) and any
+    `RemoveEntity` of a target, `CopyEntity`, `Shrink`, `Reset`), filter definitions, registrations,
+    unregistrations and queries: for every filter object registered under an ID (fixed relations allowed) and any
     admissible per-call relations, the cache entry is found, its table list has exactly the
     members of the uncached walk, and the iteration through the cache and the iteration of the
     same filter object unregistered succeed, leave the same world, are both exact and visit the
     same entities. -/
 theorem reach2_cached_agrees (run : ProbeRunner) (cap rel : Nat) (ops : List Op2)
-    (hlen : ops.length < 2 ^ 16) (hnr : ∀ op ∈ ops, op.isReset = false)
+    (hlen : ops.length < 2 ^ 16)
     {f : Nat} {fo : FilterObj} {id : Nat}
     (hfind : AL.find? (reach2 run cap rel ops).w.filters f = some fo) (hc : fo.cache = some id)
     {extra : List RelID} (hx : ExtraAdmissible (reach2 run cap rel ops).w fo extra) :
@@ -142,15 +139,15 @@ theorem reach2_cached_agrees (run : ProbeRunner) (cap rel : Nat) (ops : List Op2
         Observed (reach2 run cap rel ops).w { fo with cache := none } extra
           ((reach2 run cap rel ops).w.withLocks l1) qu visitsU ∧
         (visits.map (·.e)).Perm (visitsU.map (·.e)) := by
-  obtain ⟨fl, H⟩ := reach2_inv run cap rel ops hlen hnr
+  obtain ⟨fl, H⟩ := reach2_inv run cap rel ops hlen
   exact H.cached_agrees hfind hc hx
 
 /-- the cache invariant itself, at every reachable state: every entry's table list is
     well-formed and lists exactly the tables selected by its filter and fixed relations -/
 theorem reach2_cacheInv (run : ProbeRunner) (cap rel : Nat) (ops : List Op2)
-    (hlen : ops.length < 2 ^ 16) (hnr : ∀ op ∈ ops, op.isReset = false) :
+    (hlen : ops.length < 2 ^ 16) :
     CacheInv (reach2 run cap rel ops).w := by
-  obtain ⟨fl, H⟩ := reach2_inv run cap rel ops hlen hnr
+  obtain ⟨fl, H⟩ := reach2_inv run cap rel ops hlen
   exact H.cacheInv
 
 end RelRefine2
